@@ -130,6 +130,8 @@ func cfgFor(base string, v writerVariant, invariants string, export bool) []byte
 			l = "  FlushOnRotate = " + tlaBool(v.FlushOnRotate)
 		case strings.HasPrefix(t, "TornTailIsEOF"):
 			l = "  TornTailIsEOF = " + tlaBool(v.TornTailIsEOF)
+		case strings.HasPrefix(t, "EncodeCuts"):
+			l = "  EncodeCuts = " + v.tlaCuts()
 		case strings.HasPrefix(t, "INVARIANTS"):
 			l = "INVARIANTS " + invariants
 			if export {
@@ -155,7 +157,8 @@ func chooseInstance(l *layout, hist []histAct, li, ii int, seed int64) *instance
 		in.Sync[i] = rng.Intn(2) == 0
 	}
 	ri := 0
-	for _, a := range hist {
+	steps, _ := compileHist(hist) // (a malformed history is reported by realise)
+	for _, a := range steps {
 		switch a.Op {
 		case "open":
 			if a.H == 0 {
@@ -290,6 +293,7 @@ type stats struct {
 	lenEffects     map[string]int
 	removedVariant int
 	realised       int
+	midRot         int
 	retried        int
 	unmapped       int
 	driftN         int
@@ -304,6 +308,18 @@ func runC14(c *core.Ctx) {
 		return
 	}
 	o := c.Out()
+	if os.Getenv("VERIF_C14_DEBUG") != "" { // development aid: the extras of runs that write no evidence file
+		defer func() {
+			for _, k := range []string{"code_variant", "group_write_hook", "group_write_binding", "group_write_boundary_probe", "concurrent_rotation_probe", "model_leads",
+				"model_layouts", "model_damaged_logs", "model_writer_histories", "logs_realised", "records_written_with_a_rotation_between_their_group_writes", "realisations_retried", "wall_s_phases"} {
+				b, _ := json.Marshal(o.Extra[k])
+				fmt.Fprintf(os.Stderr, "debug %s = %s\n", k, b)
+			}
+			for _, d := range o.Drift {
+				fmt.Fprintln(os.Stderr, "debug drift:", d)
+			}
+		}()
+	}
 	o.Level = "model_checking"
 	o.Rule = "behaviour = one TLC-generated writer history executed on the real WAL + one concrete damage (cut offset / flipped byte and mask / none) + reading the files back (strict decoder, SearchForEndHeight for every height in both modes, decoding on from the returned reader); non-trivial = the damage is not 'none'; distinct = distinct (file layout, model damage class) pairs exercised"
 	o.Assumptions = []string{
@@ -337,14 +353,45 @@ func runC14(c *core.Ctx) {
 		c.Infra("variant probe: %v", err)
 		return
 	}
-	c.SetExtra("code_variant", map[string]bool{"RotateFile_flushes_headBuf": variant.FlushOnRotate, "search_treats_torn_tail_as_end_of_file": variant.TornTailIsEOF})
+	// how does the code under test hand a record to the group (one Group.Write call, or several)?
+	cuts, perKind, nonUniform, err := probeEncodeCuts()
+	if err != nil {
+		c.Infra("encoder probe: %v", err)
+		return
+	}
+	variant.Cuts = cuts
+	hookThere, callsPerWrite, err := probeGroupWriteHook(base)
+	if err != nil {
+		c.Infra("group write hook probe: %v", err)
+		return
+	}
+	gwMode = bindTap
+	if hookThere {
+		gwMode = bindHook
+		if want := len(perKind[kindNames[0]]); callsPerWrite != want {
+			c.Infra("baseWAL.Write makes %d Group.Write calls for a vote, the encoder alone makes %d: the path from the encoder to the group is not the one the binding assumes", callsPerWrite, want)
+			return
+		}
+	}
+	c.SetExtra("code_variant", map[string]interface{}{"RotateFile_flushes_headBuf": variant.FlushOnRotate, "search_treats_torn_tail_as_end_of_file": variant.TornTailIsEOF,
+		"encode_ends_a_group_write_after_cells": "{" + variant.Cuts + "}", "encode_write_call_sizes": perKind, "encode_cuts_depend_on_the_record": nonUniform})
+	hookNote := "present"
+	if !hookThere {
+		hookNote = "absent (proposed_fixes/hook-c14-group-write.diff): Group.Write calls made through baseWAL.Write cannot be counted or interleaved deterministically"
+		if variant.Cuts != "" || nonUniform {
+			hookNote += "; rotations between two Group.Write calls of a record are realised with the real WALEncoder writing into the real Group through a writer of the harness (baseWAL.Write by-passed for those records)"
+		} else {
+			hookNote += "; nothing to interleave: the encoder hands every record to the group in one call"
+		}
+	}
+	c.SetExtra("group_write_hook", hookNote)
 
 	// ---- TLC
 	cfgNames := []string{"WAL.cfg"}
 	if c.Thorough() {
 		cfgNames = []string{"WALBig.cfg", "WALSplits.cfg"}
 	}
-	designed := writerVariant{true, true}
+	designed := writerVariant{FlushOnRotate: true, TornTailIsEOF: true}
 	inv := "TypeOK PrefixThenEnd MarkerSound"
 	if variant == designed {
 		inv += " MarkerComplete"
@@ -389,10 +436,14 @@ func runC14(c *core.Ctx) {
 		}()
 	}
 	if !variant.FlushOnRotate {
-		runSide("lead-FlushOnRotate", quickCfg, writerVariant{false, true}, "TypeOK MarkerComplete", c.MinutesT(3, 10))
+		runSide("lead-FlushOnRotate", quickCfg, writerVariant{FlushOnRotate: false, TornTailIsEOF: true}, "TypeOK MarkerComplete", c.MinutesT(3, 10))
 	}
 	if !variant.TornTailIsEOF {
-		runSide("lead-TornTailIsEOF", quickCfg, writerVariant{true, false}, "TypeOK MarkerComplete", c.MinutesT(3, 10))
+		runSide("lead-TornTailIsEOF", quickCfg, writerVariant{FlushOnRotate: true, TornTailIsEOF: false}, "TypeOK MarkerComplete", c.MinutesT(3, 10))
+	}
+	if variant.Cuts != "" {
+		// the record is not atomic with respect to a rotation: the model itself must lose a marker
+		runSide("lead-EncodeCuts", quickCfg, writerVariant{FlushOnRotate: true, TornTailIsEOF: true, Cuts: variant.Cuts}, "TypeOK MarkerComplete", c.MinutesT(3, 10))
 	}
 	if variant != designed && c.Thorough() {
 		// the design is checked on the large instance (the leads stop at the first violation)
@@ -403,11 +454,23 @@ func runC14(c *core.Ctx) {
 		}
 		runSide("designed", big, designed, "TypeOK PrefixThenEnd MarkerSound MarkerComplete", c.MinutesT(4, 20))
 	}
-	// meanwhile: let the group's own ticker produce a rotation (takes up to 5 s of waiting)
+	// meanwhile: let the group's own ticker produce a rotation (takes up to 5 s of waiting),
+	// rotate at every boundary between two Group.Write calls of every record kind, and let a
+	// real goroutine rotate while another writes
 	swg.Add(1)
 	go func() {
 		defer swg.Done()
 		tickerRotationProbe(c, base)
+	}()
+	swg.Add(1)
+	go func() {
+		defer swg.Done()
+		groupWriteBoundaryProbe(c, base)
+		rounds := 1
+		if variant.Cuts != "" || nonUniform {
+			rounds = c.Pick(4, 12) // the window exists: try harder to land in it
+		}
+		concurrentRotationProbe(c, base, rounds, 100)
 	}()
 	for _, cfgName := range cfgNames {
 		baseCfg, err := ioutil.ReadFile(filepath.Join(c.SpecDir("WAL"), cfgName))
@@ -458,11 +521,15 @@ func runC14(c *core.Ctx) {
 			continue
 		}
 		sw := strings.TrimPrefix(sd.name, "lead-")
+		val := "FALSE"
+		if sw == "EncodeCuts" {
+			val = variant.tlaCuts()
+		}
 		if sd.res.Violated != "MarkerComplete" {
-			c.Infra("the model with %s = FALSE does not violate MarkerComplete (%s): the switch does not describe the probed behaviour", sw, sd.res.Describe())
+			c.Infra("the model with %s = %s does not violate MarkerComplete (%s): the parameter does not describe the probed behaviour", sw, val, sd.res.Describe())
 			return
 		}
-		leads[sw] = "MarkerComplete violated in the model with " + sw + " = FALSE (a lead; reproduced on the code, see the violations)"
+		leads[sw] = "MarkerComplete violated in the model with " + sw + " = " + val + " (a lead; reproduced on the code, see the violations)"
 	}
 	c.SetExtra("model_leads", leads)
 	c.SetExtra("model_lines", nLines)
@@ -553,7 +620,7 @@ func runC14(c *core.Ctx) {
 		// the length bound is missing: garbage lengths met during the replay would make the code
 		// under test allocate gigabytes in every worker. The violation is recorded; stop here.
 		c.SetExtra("replay", "not run: the decoder does not bound the length field (see the violation)")
-		o.Traces, o.Evaluations = st.traces, st.evals
+		o.Traces, o.Evaluations = o.Traces+st.traces, st.evals
 		return
 	}
 
@@ -598,10 +665,14 @@ func runC14(c *core.Ctx) {
 	}
 
 	c.SetExtra("wall_s_phases", map[string]float64{"model": tModel, "serial_pass": tSerial - tModel, "replay": time.Since(c.Start).Seconds() - tSerial})
-	o.Traces = st.traces
+	o.Traces += st.traces
 	o.Evaluations = st.evals
 	o.Distinct = len(st.classes)
 	c.SetExtra("logs_realised", st.realised)
+	c.SetExtra("records_written_with_a_rotation_between_their_group_writes", st.midRot)
+	if st.midRot > 0 {
+		c.SetExtra("group_write_binding", bindingName())
+	}
 	c.SetExtra("realisations_retried", st.retried)
 	c.SetExtra("record_kinds_written", st.kinds)
 	c.SetExtra("cases_by_damage", st.byDamage)
@@ -625,6 +696,9 @@ func runC14(c *core.Ctx) {
 		if sw == "TornTailIsEOF" {
 			want = "search/missed-marker/torn-tail"
 		}
+		if sw == "EncodeCuts" {
+			want = keyBetweenGroupWrites
+		}
 		found := false
 		for _, v := range o2.Violations {
 			if v.Key == want {
@@ -632,7 +706,7 @@ func runC14(c *core.Ctx) {
 			}
 		}
 		if !found {
-			c.Infra("model lead (%s = FALSE) was not reproduced on the code: no %s", sw, want)
+			c.Infra("model lead (%s) was not reproduced on the code: no %s", sw, want)
 		}
 	}
 }
@@ -667,6 +741,7 @@ func runJob(c *core.Ctx, wdir string, variant writerVariant, j job, st *stats, n
 	}
 	st.mu.Lock()
 	st.realised++
+	st.midRot += rl.MidRot
 	for _, k := range rl.Kind {
 		st.kinds[k]++
 	}
